@@ -154,7 +154,7 @@ mutual
           intro hm
           have := find?_isSome_of_mem k hm
           rw [hk] at this; cases this
-        rw [mapAt_of_not_mem k this, findList?_cons_none hk]
+        rw [fs_mapAt_of_not_mem k this, findList?_cons_none hk]
         exact findList?_mapAt_self hG ks u e
 end
 
@@ -183,7 +183,7 @@ mutual
           simp only [Option.map_some]
           have hsub := (findList?_some ks u hf).2
           have : a ∉ handles u := fun hm => n1 (hh ▸ hsub a hm)
-          rw [mapAt_of_not_mem u this]
+          rw [fs_mapAt_of_not_mem u this]
       · rw [if_neg hh, find?_node, find?_node]
         by_cases hhx : h = x
         · rw [if_pos hhx, if_pos hhx]
@@ -211,7 +211,7 @@ theorem Forest.get?_setValue_other {f : Forest} {a x : Nat} {u : HTree} (v : Val
   show findList? x (f.roots.map (mapAt a (HTree.setValue v))) = _
   rw [← mapAtList_eq_map, findList?_mapAt_setValue_other v hx f.roots nd, ← Forest.get?_eq, h]
   simp only [Option.map_some]
-  rw [mapAt_of_not_mem u hau]
+  rw [fs_mapAt_of_not_mem u hau]
 
 /-- **The merge step of xot** (`set` the data of the resident text node `a`, remove the moved text
     node `c`): afterwards `c` is gone and `a` carries the new data. -/
